@@ -159,15 +159,15 @@ Theorem C19_tight_every_entry_gated : forall v reg en vo root st ms,
 Proof. exact tight_every_entry_gated. Qed.
 
 (* ... C19_tight_every_entry_confined: and every path handed to the file system (stat, opendir, open,
-   creat, utime, unlink, mkdir) is root ++ "/" ++ rel with rel never climbing above the root.  Proved for
-   the control flow with notes/fix_C19_3.diff ([fstale = true]); *)
-Theorem C19_tight_every_entry_confined_fixed : forall reg en vo root ms st,
+   creat, utime, unlink, mkdir) is root ++ "/" ++ rel with rel never climbing above the root.  Holds for
+   the tree (fix commits 9f956a4 and 7654ac8) *)
+Theorem C19_tight_every_entry_confined : forall reg en vo root ms st,
   name_ok root st ->
-  Forall (fun o => below_root root (tfs_path o)) (tight_run v_tight_fixed reg en vo root st ms).
+  Forall (fun o => below_root root (tfs_path o)) (tight_run v_tight_tree reg en vo root st ms).
 Proof. exact tight_every_entry_confined. Qed.
 
-(* FALSE for the tree (F19b, known finding): the name of a refused upload request stays in
-   rtcp->rcft.rcfu.fName and is unlinked / utimed by a later message *)
-Theorem C19_tight_every_entry_confined_refuted : exists root ms o,
-  In o (tight_run v_tight_tree true true false root tstate0 ms) /\ ~ below_root root (tfs_path o).
+(* before 7654ac8 (F19b) the name of a refused upload request stayed in rtcp->rcft.rcfu.fName and was
+   unlinked / utimed by a later message; regression witness corpus/C19/f19b_stale_upload_name.script *)
+Theorem C19_tight_every_entry_confined_prefix_refuted : exists root ms o,
+  In o (tight_run v_tight_prefix true true false root tstate0 ms) /\ ~ below_root root (tfs_path o).
 Proof. exact tight_every_entry_confined_refuted. Qed.
